@@ -1,0 +1,186 @@
+//go:build verif
+
+// Contracts for the deductive verification in /verif (comment-only file: with
+// the "verif" build tag off it does not exist for the compiler, with it on it
+// compiles to nothing). The //@ blocks are read by /verif/bin/vc.
+//
+// float64 values are modelled as real numbers; "finite" is the uninterpreted
+// predicate the code itself uses (math.IsInf / math.IsNaN), so nothing is
+// assumed about which values are finite.
+
+package coordinate
+
+//@ import "math"
+//@ import "math/rand"
+//@ import "time"
+
+// ---------------------------------------------------------------- the local coordinate stays valid (C20)
+
+//@ pure func finite(f float64) bool { return !math.IsInf(f, 0) && !math.IsNaN(f) }
+//@ pure func coordValid(c *Coordinate) bool {
+//@   return forall(func(i int) bool { return 0 <= i && i < len(c.Vec) ==> finite(c.Vec[i]) }) && finite(c.Error) && finite(c.Adjustment) && finite(c.Height)
+//@ }
+//@ pure func wfVec(v []float64) bool { return len(v) >= 0 && (nilSlice(v) ==> len(v) == 0) && (nilSlice(v) || arrayAllocated(v)) }
+//@ pure func wfCoord(c *Coordinate) bool { return c != nil && allocated(c) && wfVec(c.Vec) }
+// the tuning parameters make sense: at least one dimension, a filter window, factors in [0,1], finite bounds
+//@ pure func wfConfig(g *Config) bool {
+//@   return g != nil && g.Dimensionality > 0 && g.Dimensionality <= 1048576 && g.AdjustmentWindowSize <= 1048576 && g.LatencyFilterSize > 0 && g.LatencyFilterSize <= 1048576 && 0 <= g.VivaldiCE && g.VivaldiCE <= 1 && 0 <= g.VivaldiErrorMax &&
+//@     finite(g.VivaldiErrorMax) && finite(g.HeightMin) && finite(0.0)
+//@ }
+//@ pure func wfClient(c *Client) bool {
+//@   return c != nil && wfConfig(c.config) && wfCoord(c.coord) && wfCoord(c.origin) && c.coord != c.origin &&
+//@     len(c.coord.Vec) == int(c.config.Dimensionality) && len(c.origin.Vec) == int(c.config.Dimensionality) &&
+//@     c.coord.Height >= c.config.HeightMin && c.coord.Error <= c.config.VivaldiErrorMax &&
+//@     wfVec(c.adjustmentSamples) && len(c.adjustmentSamples) == int(c.config.AdjustmentWindowSize) &&
+//@     (c.config.AdjustmentWindowSize > 0 ==> c.adjustmentIndex < c.config.AdjustmentWindowSize) && c.latencyFilterSamples != nil
+//@ }
+
+//@ func add(vec1 []float64, vec2 []float64) (out []float64)
+//@   requires dims: wfVec(vec1) && wfVec(vec2) && len(vec2) >= len(vec1)
+//@   ensures fresh_same_length [C20]: len(out) == len(vec1) && !nilSlice(out) && arrayAllocated(out) && !old(arrayAllocated(out)) && allocatedElemsKept(vec1)
+//@   loop 1 vars ri=rangeindex int, ret []float64
+//@   loop 1 invariant filling [C20]: -1 <= ri && len(ret) == len(vec1) && !nilSlice(ret) && arrayAllocated(ret) && !old(arrayAllocated(ret)) && allocatedElemsKept(vec1)
+//@ end
+//@ func diff(vec1 []float64, vec2 []float64) (out []float64)
+//@   requires dims: wfVec(vec1) && wfVec(vec2) && len(vec2) >= len(vec1)
+//@   ensures fresh_same_length [C20]: len(out) == len(vec1) && !nilSlice(out) && arrayAllocated(out) && !old(arrayAllocated(out)) && allocatedElemsKept(vec1)
+//@   loop 1 vars ri=rangeindex int, ret []float64
+//@   loop 1 invariant filling [C20]: -1 <= ri && len(ret) == len(vec1) && !nilSlice(ret) && arrayAllocated(ret) && !old(arrayAllocated(ret)) && allocatedElemsKept(vec1)
+//@ end
+//@ func mul(vec []float64, factor float64) (out []float64)
+//@   requires dims: wfVec(vec)
+//@   ensures fresh_same_length [C20]: len(out) == len(vec) && !nilSlice(out) && arrayAllocated(out) && !old(arrayAllocated(out)) && allocatedElemsKept(vec)
+//@   loop 1 vars ri=rangeindex int, ret []float64
+//@   loop 1 invariant filling [C20]: -1 <= ri && len(ret) == len(vec) && !nilSlice(ret) && arrayAllocated(ret) && !old(arrayAllocated(ret)) && allocatedElemsKept(vec)
+//@ end
+//@ func magnitude(vec []float64) (m float64)
+//@   requires dims: wfVec(vec)
+//@   loop 1 vars ri=rangeindex int
+//@   loop 1 invariant scanning [C20]: -1 <= ri
+//@ end
+
+//@ func unitVectorAt(rng *rand.Rand, vec1 []float64, vec2 []float64) (unit []float64, mag float64)
+//@   requires dims: wfVec(vec1) && wfVec(vec2) && len(vec1) == len(vec2) && len(vec1) > 0
+//@   ensures same_length [C20]: len(unit) == len(vec1) && wfVec(unit) && allocatedElemsKept(vec1)
+//@   loop 1 vars ri=rangeindex int, ret []float64
+//@   loop 1 invariant filling [C20]: -1 <= ri && len(ret) == len(vec1) && wfVec(ret) && !nilSlice(ret) && !old(arrayAllocated(ret)) && allocatedElemsKept(vec1)
+//@ end
+
+//@ func NewCoordinate(config *Config) (c *Coordinate)
+//@   requires config: config != nil && config.Dimensionality <= 1048576
+//@   ensures fresh_default [C20]: c != nil && !old(allocated(c)) && wfCoord(c) && len(c.Vec) == int(config.Dimensionality) &&
+//@       c.Error == config.VivaldiErrorMax && c.Adjustment == 0 && c.Height == config.HeightMin &&
+//@       forall(func(i int) bool { return 0 <= i && i < len(c.Vec) ==> c.Vec[i] == 0 })
+//@ end
+//@ func (c *Coordinate) Clone() (r *Coordinate)
+//@   requires wf: wfCoord(c)
+//@   let rv := r.Vec
+//@   ensures independent_copy [C20]: r != nil && !old(allocated(r)) && wfCoord(r) && len(rv) == len(c.Vec) && !old(arrayAllocated(rv)) &&
+//@       r.Error == c.Error && r.Adjustment == c.Adjustment && r.Height == c.Height
+//@   ensures same_components [C20]: forall(func(i int) bool { return 0 <= i && i < len(c.Vec) ==> rv[i] == c.Vec[i] })
+//@   ensures source_untouched [C20]: allocatedElemsKept(c.Vec)
+//@ end
+//@ func (c *Coordinate) IsValid() (ok bool)
+//@   requires wf: wfCoord(c)
+//@   ensures all_components_finite [C20]: ok == coordValid(c)
+//@   loop 1 vars ri=rangeindex int
+//@   loop 1 invariant scanned [C20]: -1 <= ri && forall(func(i int) bool { return 0 <= i && i <= ri ==> finite(c.Vec[i]) })
+//@ end
+//@ func (c *Coordinate) IsCompatibleWith(other *Coordinate) (ok bool)
+//@   requires wf: c != nil && other != nil
+//@   ensures same_dimension [C20,C21]: ok == (len(c.Vec) == len(other.Vec))
+//@ end
+//@ func (c *Coordinate) rawDistanceTo(other *Coordinate) (d float64)
+//@   requires wf: wfCoord(c) && wfCoord(other) && len(c.Vec) == len(other.Vec)
+//@ end
+//@ func (c *Coordinate) DistanceTo(other *Coordinate) (d time.Duration)
+//@   requires wf: wfCoord(c) && wfCoord(other) && len(c.Vec) == len(other.Vec)
+//@ end
+//@ func (c *Coordinate) ApplyForce(config *Config, force float64, other *Coordinate) (r *Coordinate)
+//@   requires wf: wfCoord(c) && wfCoord(other) && config != nil && len(c.Vec) == len(other.Vec) && len(c.Vec) > 0
+//@   ensures moved_copy [C20]: r != nil && !old(allocated(r)) && wfCoord(r) && len(r.Vec) == len(c.Vec) && r.Error == c.Error && r.Adjustment == c.Adjustment
+//@   ensures height_floor [C20]: c.Height >= config.HeightMin ==> r.Height >= config.HeightMin
+//@   ensures inputs_untouched [C20]: c.Error == old(c.Error) && c.Height == old(c.Height) && c.Adjustment == old(c.Adjustment) && sameSlice(c.Vec, old(c.Vec)) && allocatedElemsKept(c.Vec)
+//@   # no coordinate that existed before is modified (the result is a new object)
+//@   ensures existing_coordinates_untouched [C20]: forall(func(x *Coordinate) bool { return old(allocated(x)) ==>
+//@       sameSlice(x.Vec, old(x.Vec)) && x.Height == old(x.Height) && x.Error == old(x.Error) && x.Adjustment == old(x.Adjustment) })
+//@ end
+
+// ---------------------------------------------------------------- the client
+
+//@ func (c *Client) checkCoordinate(coord *Coordinate) (err error)
+//@   requires wf: wfClient(c) && wfCoord(coord)
+//@   ensures accepted_iff_compatible_and_finite [C20]: (err == nil) == (len(coord.Vec) == len(c.coord.Vec) && coordValid(coord))
+//@ end
+
+//@ func (c *Client) latencyFilter(node string, rttSeconds float64) (m float64)
+//@   requires wf: wfClient(c)
+//@   ensures wf [C20]: wfClient(c)
+//@   ensures coordinate_untouched [C20]: same(c.coord, old(c.coord)) && c.coord.Error == old(c.coord.Error) && c.coord.Height == old(c.coord.Height) &&
+//@       c.coord.Adjustment == old(c.coord.Adjustment) && sameSlice(c.coord.Vec, old(c.coord.Vec))
+//@ end
+
+//@ func (c *Client) updateVivaldi(other *Coordinate, rttSeconds float64)
+//@   requires wf: wfClient(c) && wfCoord(other) && len(other.Vec) == len(c.coord.Vec) && c.coord != other && c.origin != other
+//@   ensures wf_shape [C20]: wfCoord(c.coord) && len(c.coord.Vec) == int(c.config.Dimensionality) && c.coord.Height >= c.config.HeightMin && c.coord != c.origin
+//@   ensures wf [C20]: wfClient(c)
+//@   oldlet mine := c.coord
+//@   ensures other_coordinates_untouched [C20]: forall(func(x *Coordinate) bool { return old(allocated(x)) && x != mine ==>
+//@       sameSlice(x.Vec, old(x.Vec)) && x.Height == old(x.Height) && x.Error == old(x.Error) && x.Adjustment == old(x.Adjustment) }) && allocatedElemsKept(c.origin.Vec)
+//@   ensures error_capped [C20]: c.coord.Error <= c.config.VivaldiErrorMax
+//@   ensures error_nonnegative [C20]: old(c.coord.Error) >= 0 && other.Error >= 0 ==> c.coord.Error >= 0
+//@   ensures rest_untouched [C20]: same(c.origin, old(c.origin)) && same(c.config, old(c.config)) && sameSlice(c.adjustmentSamples, old(c.adjustmentSamples)) &&
+//@       c.adjustmentIndex == old(c.adjustmentIndex)
+//@   ensures rest_untouched_b [C20]: same(c.latencyFilterSamples, old(c.latencyFilterSamples))
+//@   ensures rest_untouched_c [C20]: wfCoord(c.origin)
+//@   ensures rest_untouched_d [C20]: sameSlice(c.origin.Vec, old(c.origin.Vec))
+//@ end
+
+//@ func (c *Client) updateAdjustment(other *Coordinate, rttSeconds float64)
+//@   requires wf: wfClient(c) && wfCoord(other) && len(other.Vec) == len(c.coord.Vec)
+//@   ensures only_adjustment_moves [C20]: same(c.coord, old(c.coord)) && c.coord.Error == old(c.coord.Error) && c.coord.Height == old(c.coord.Height) &&
+//@       sameSlice(c.coord.Vec, old(c.coord.Vec)) && same(c.origin, old(c.origin)) && same(c.config, old(c.config)) && same(c.latencyFilterSamples, old(c.latencyFilterSamples))
+//@   ensures wf [C20]: wfClient(c)
+//@   oldlet mine := c.coord
+//@   ensures other_coordinates_untouched [C20]: forall(func(x *Coordinate) bool { return old(allocated(x)) && x != mine ==>
+//@       sameSlice(x.Vec, old(x.Vec)) && x.Height == old(x.Height) && x.Error == old(x.Error) && x.Adjustment == old(x.Adjustment) })
+//@   ensures samples_ring_kept [C20]: wfVec(c.adjustmentSamples) && len(c.adjustmentSamples) == int(c.config.AdjustmentWindowSize) &&
+//@       (c.config.AdjustmentWindowSize > 0 ==> c.adjustmentIndex < c.config.AdjustmentWindowSize)
+//@   loop 1 vars ri=rangeindex int
+//@   loop 1 invariant summing [C20]: -1 <= ri
+//@ end
+
+//@ func (c *Client) updateGravity()
+//@   requires wf: wfClient(c)
+//@   ensures wf_shape [C20]: wfCoord(c.coord) && len(c.coord.Vec) == int(c.config.Dimensionality) && c.coord.Height >= c.config.HeightMin && c.coord != c.origin
+//@   ensures wf [C20]: wfClient(c)
+//@   oldlet mine := c.coord
+//@   ensures other_coordinates_untouched [C20]: forall(func(x *Coordinate) bool { return old(allocated(x)) && x != mine ==>
+//@       sameSlice(x.Vec, old(x.Vec)) && x.Height == old(x.Height) && x.Error == old(x.Error) && x.Adjustment == old(x.Adjustment) }) && allocatedElemsKept(c.origin.Vec)
+//@   ensures error_untouched [C20]: c.coord.Error == old(c.coord.Error)
+//@   ensures rest_untouched [C20]: same(c.origin, old(c.origin)) && same(c.config, old(c.config)) && sameSlice(c.adjustmentSamples, old(c.adjustmentSamples)) &&
+//@       c.adjustmentIndex == old(c.adjustmentIndex) && same(c.latencyFilterSamples, old(c.latencyFilterSamples)) && wfCoord(c.origin) && sameSlice(c.origin.Vec, old(c.origin.Vec))
+//@ end
+
+// For every observation whatever the peer reports: the local coordinate afterwards is finite in every component, has
+// the configured dimensionality, a height at or above the minimum and an error estimate at most the maximum (and at
+// least zero when the peer reports a non-negative error); an observation with an incompatible or non-finite
+// coordinate, or a round-trip time outside [0, 10 s], is rejected and leaves the client as it was.
+//@ pure func acceptable(c *Client, other *Coordinate, rtt time.Duration) bool {
+//@   return len(other.Vec) == len(c.coord.Vec) && coordValid(other) && rtt >= 0 && rtt <= 10*time.Second
+//@ }
+//@ func (c *Client) Update(node string, other *Coordinate, rtt time.Duration) (r *Coordinate, err error)
+//@   requires wf: wfClient(c) && wfCoord(other) && c.coord != other && c.origin != other
+//@   oldlet ok := acceptable(c, other, rtt)
+//@   ensures wf [C20]: wfClient(c)
+//@   ensures rejected_iff_unacceptable [C20]: (err != nil) == !ok
+//@   ensures rejected_leaves_state [C20]: !ok ==> r == nil && same(c.coord, old(c.coord)) && c.coord.Error == old(c.coord.Error) && c.coord.Height == old(c.coord.Height) &&
+//@       c.coord.Adjustment == old(c.coord.Adjustment) && sameSlice(c.coord.Vec, old(c.coord.Vec)) && allocatedElemsKept(c.coord.Vec) &&
+//@       c.adjustmentIndex == old(c.adjustmentIndex) && c.stats.Resets == old(c.stats.Resets)
+//@   ensures stays_finite [C20]: ok ==> coordValid(c.coord)
+//@   # the error estimate stays within zero and the maximum as long as peers report non-negative errors
+//@   ensures error_nonnegative [C20]: old(c.coord.Error) >= 0 && (ok ==> old(other.Error) >= 0) ==> c.coord.Error >= 0
+//@   ensures returns_a_copy [C20]: ok ==> r != nil && r != c.coord && len(r.Vec) == len(c.coord.Vec)
+//@ end
+
+// END-OF-CONTRACTS
